@@ -173,6 +173,24 @@ fn near_miss() -> BoxedStrategy<String> {
         .boxed()
 }
 
+/// long inputs: thousands of leading zeros / fraction digits / exponent digits
+fn long_lit() -> BoxedStrategy<String> {
+    (sign(), 0usize..=3000, digits(0..=45), 0usize..=3000, digits(0..=30), 0usize..=600, -40i32..=40, 0u8..5)
+        .prop_map(|(s, lz, d, fz, f, ez, e, kind)| match kind {
+            // many leading zeros before a (possibly valid) number
+            0 => format!("{s}{}{d}", "0".repeat(lz.max(1))),
+            // many zeros after the point, then digits, with an exponent that may or may not compensate
+            1 => format!("{s}{}.{}{f}e{}", if d.is_empty() { "0" } else { &d }, "0".repeat(fz), fz as i32 + e),
+            // long run of trailing fraction zeros (more than 18 fractional digits: must be rejected)
+            2 => format!("{s}{}.{f}{}", if d.is_empty() { "0" } else { &d }, "0".repeat(fz)),
+            // exponent with many leading zeros
+            3 => format!("{s}{}e{}{}", if d.is_empty() { "1" } else { &d }, "0".repeat(ez), e.abs()),
+            // very long digit string
+            _ => format!("{s}{}{}", "9".repeat(lz.max(40)), d),
+        })
+        .boxed()
+}
+
 fn fixed_forms() -> BoxedStrategy<String> {
     proptest::sample::select(vec![
         "", "+", "-", ".", "e", "E", "e5", ".e5", "+.", "-.e1", "1e", "1e+", "1e-", "1E+", "1.e", "1.e+", "1..2", "1.2.3", "--1", "+-1", "1e1e1", "1e1.5",
@@ -200,7 +218,7 @@ impl Prop for C06 {
     }
     fn rule(&self) -> String {
         "Generated strings: (1) grammar-derived literals (sign, 0..=80 integer digits, 0..=45 fraction digits, exponents with sign, leading zeros, up to 30 exponent digits), digit strings constructed around 10^38, 2^127, 2^128, k*2^128+[10^38,2^127) (39-digit values that wrap), 2^256, 40+ digits, with radix points and compensating exponents, coefficient*10^exp at the i128 edge, fraction-exponent in {17,18,19}; \
-         (2) near misses: one or two insert/delete/replace edits of a valid literal with digits, signs, '.', 'e', '_', blanks, NUL, non-ASCII digits, multi-byte characters; (3) arbitrary Unicode strings and lossy-decoded random bytes; (4) a fixed list of corner literals. \
+         (2) near misses: one or two insert/delete/replace edits of a valid literal with digits, signs, '.', 'e', '_', blanks, NUL, non-ASCII digits, multi-byte characters; (3) arbitrary Unicode strings and lossy-decoded random bytes, long inputs (up to ~6000 bytes: thousands of leading zeros, fraction zeros, exponent zeros, digits); (4) a fixed list of corner literals. \
          from_str, TryFrom<&str>, TryFrom<String> and fpdec_core::str_to_dec must agree with a character-level reference parser with big-integer accumulation (Ok iff in grammar, scale <= 18, |coefficient| <= 2^127-1; exact coefficient and scale; Empty iff empty). \
          Memory safety: every string is parsed twice more from a buffer that ends exactly at (resp. starts right after) a PROT_NONE guard page, so an out-of-bounds read faults; a SIGSEGV handler turns the fault into a replay file and a VIOLATION line. \
          Non-trivial: >= 20 significant digits, or an exponent, or a near miss, or within 12 of a 2^127 / 2^128 / 10^38 boundary. Distinct: hash of the string."
@@ -230,12 +248,13 @@ impl Prop for C06 {
             1 => proptest::collection::vec(any::<u8>(), 0..64).prop_map(|b| String::from_utf8_lossy(&b).into_owned()),
             1 => "[0-9+\\-.eE]{0,24}",
             1 => fixed_forms(),
+            1 => long_lit(),
         ]
         .prop_map(Case::of)
         .boxed()
     }
     fn mandatory_labels(&self, _tier: Tier) -> Vec<&'static str> {
-        vec!["ok", "err:not-in-grammar", "err:overflow", "err:frac-digits", "empty", "exponent", ">=20-digits", "near-2^127", "near-2^128", "near-10^38", "wraps-into-range", "zero-literal", "multi-byte", "exp>2digits", "leading-frac-zeros"]
+        vec!["ok", "err:not-in-grammar", "err:overflow", "err:frac-digits", "empty", "exponent", ">=20-digits", "near-2^127", "near-2^128", "near-10^38", "wraps-into-range", "zero-literal", "multi-byte", "exp>2digits", "leading-frac-zeros", "len>=256"]
     }
     fn builtin_corpus(&self) -> Vec<Case> {
         [
@@ -267,6 +286,9 @@ impl Prop for C06 {
         }
         if !s.is_ascii() {
             ctx.label("multi-byte");
+        }
+        if s.len() >= 256 {
+            ctx.label("len>=256");
         }
         if let Some(p) = split_literal(s) {
             let all = format!("{}{}", p.int_digits, p.frac_digits);
